@@ -128,6 +128,11 @@ pub fn main(args: &[String]) {
     let full = env::walrus_features(false);
     // seeds: fixtures + generated valid modules
     let mut seeds: Vec<Vec<u8>> = fixtures().into_iter().map(|x| x.1).collect();
+    // the module-level corpus as well: every module the other checks keep as a regression input is also a seed here
+    if let Ok(rd) = std::fs::read_dir("/verif/corpus/mod") { let mut ps: Vec<_> = rd.filter_map(|e| e.ok()).map(|e| e.path()).collect(); ps.sort();
+        for p in ps { let b = match p.extension().and_then(|e| e.to_str()) { Some("wat") => std::fs::read_to_string(&p).ok().and_then(|t| wat::parse_str(&t).ok()),
+            Some("hex") => std::fs::read_to_string(&p).ok().map(|t| { let t = t.trim().to_string(); (0..t.len() / 2).filter_map(|i| u8::from_str_radix(&t[2 * i..2 * i + 2], 16).ok()).collect() }), _ => None };
+            if let Some(b) = b { if amod::validate(&b, full).is_ok() { seeds.push(b); } } } }
     let tab = sigs::build_table(Profile::Full, false, 6);
     let gcfg = GenCfg { profile: Profile::Full, max_funcs: 3, max_depth: 3, seq_len: 5, names: true, customs: true, start: true, active_segments: true };
     for _ in 0..40 { let (w, _) = gen::module(&mut r, &tab, &gcfg); if amod::validate(&w, full).is_ok() { seeds.push(w); } }
